@@ -19,7 +19,7 @@ PROPERTY = "C12"
 LEVEL = "model_checking"
 RULE = (
     "BFS over all event histories up to depth 3 (quick) / 4 (thorough) with at most 1 / 2 failing or fault-injected activations per history; 27 events: enable x 9 context selections, per-call to(), disable(1), "
-    "disable(), 3 with-enter, with-exit, raise-inside-with, 4 naturally failing activations, 5 injected-fault activations (every internal step of the activation), define, 2 cache-touching queries; "
+    "disable(), 3 with-enter, with-exit, raise-inside-with (an Exception, KeyboardInterrupt, GeneratorExit), 4 naturally failing activations, 5 injected-fault activations (every internal step of the activation), define, 2 cache-touching queries; "
     "14-probe observation vector + pooled-context snapshots in every state vs a fresh registry with the reference stack. non-trivial = distinct state fingerprint"
 )
 ASSUMPTIONS = [
@@ -107,7 +107,7 @@ EVENTS = [
     ("to", ["A"], {"n": 7}),
     ("disable", 1), ("disable", None),
     ("with", ["R"], {}), ("with", ["A"], {"n": 3}), ("with", ["RB", "B"], {}),
-    ("exit",), ("raise",),
+    ("exit",), ("raise",), ("raise", "KeyboardInterrupt"), ("raise", "GeneratorExit"),
     ("enable", ["BAD"], {}), ("enable", ["BAD2"], {}), ("enable", ["R", "BAD2"], {}), ("enable", ["NOSUCH"], {}),
     ("fault", ["R"], "redefine", 0), ("fault", ["RB"], "redefine", 0), ("fault", ["R", "RB"], "redefine", 1), ("fault", ["A"], "switch", 0), ("fault", ["RB"], "define", 0),
     ("define", "newu = 4 * ua"),
@@ -244,8 +244,20 @@ class CtxDriver(explore.Driver):
             outs = []
             while s.blocks:
                 cm, n = s.blocks.pop()
-                err = RuntimeError("raised inside the with-block")
-                outs.append(call(lambda: cm.__exit__(RuntimeError, err, None))[0])
+                # an ordinary error, or a BaseException that is not an Exception (Ctrl-C, a generator being closed):
+                # the block is left either way
+                cls = {"KeyboardInterrupt": KeyboardInterrupt, "GeneratorExit": GeneratorExit}.get(ev[1] if len(ev) > 1 else "", RuntimeError)
+                err = cls("raised inside the with-block")
+
+                def leave():
+                    try:
+                        return cm.__exit__(cls, err, None)
+                    except BaseException as e:  # noqa  (the manager re-raises what it was given)
+                        if e is err:
+                            return False
+                        raise
+
+                outs.append(call(leave)[0])
                 k = s.mblocks.pop()
                 del s.model[max(0, len(s.model) - k) :]
             return outs
@@ -395,7 +407,7 @@ MANIFEST = {
     "category": "model_checking",
     "technique": "explicit-state BFS over activation histories on the real registry (fingerprint dedup, replay from scratch), reference stack model in lock-step, fault-point enumeration at every internal step of an activation, fresh-registry differential oracle",
     "text": "All histories up to depth 3 (4 thorough) over 29 events — enable in 9 selections (by name, alias, with parameters, several at once, a Python-made context shared with a second registry), per-call "
-    "activation, disable(1), disable(), with-enter x3, with-exit, raise-inside-with, 4 naturally failing activations (dimensionality-changing redefinition, valid-then-invalid redefinitions, a good context followed "
+    "activation, disable(1), disable(), with-enter x3, with-exit, raise-inside-with (an Exception, KeyboardInterrupt, GeneratorExit), 4 naturally failing activations (dimensionality-changing redefinition, valid-then-invalid redefinitions, a good context followed "
     "by a bad one, unknown name), 5 activations with an injected fault at a chosen internal step (_redefine #k, define #k, the cache/unit-table switch), define, and two cache-touching queries — are replayed on the "
     "real registry with at most 1 (2) failing activations. In every state a 14-probe vector (rule conversions that identify the active rule by primes, redefined units and their dependents, root/base units, "
     "prefixed redefined unit, compatible units, the active stack) must equal that of a fresh registry on which exactly the reference stack was enabled; failed activations must leave everything unchanged; context "
